@@ -63,7 +63,7 @@ def build_script(rng, i, quick):
         pid2 = g.fresh("p")
         o2 = [m for m in others if m not in rcv] or others
         ops.append({"op": "opts", "who": o2[0], "encrypt_controls": enc})
-        ops.append({"op": "propose", "who": o2[0], "kind": "remove", "name": rng.choice([m for m in members if m not in (snd, o2[0])]), "id": pid2})
+        ops.append({"op": "propose", "who": o2[0], "kind": "remove", "name": rng.choice([m for m in members if m not in (snd, o2[0])] or [m for m in members if m != o2[0]]), "id": pid2})
         kind = "proposal_enc" if enc else "proposal_pub"
         for r in rcv:
             for mode in ("bits", "trunc", "splice"):
@@ -187,21 +187,38 @@ def build_script(rng, i, quick):
 
 def cross_group_script(rng, i):
     """Two groups with disjoint members in one world: traffic of one is refused by the other."""
-    members = [{"name": n} for n in "ABCDEF"]
-    ops = [{"op": "create", "who": "A"}, {"op": "kp", "who": "B", "id": "kB"}, {"op": "kp", "who": "C", "id": "kC"},
+    members = [{"name": n} for n in "ABCDEFGHX"]
+    ops = [{"op": "create", "who": "A", "ext_senders": ["X"]}, {"op": "kp", "who": "B", "id": "kB"}, {"op": "kp", "who": "C", "id": "kC"},
            {"op": "commit", "who": "A", "id": "g1c", "add": ["kB", "kC"]}, {"op": "apply", "who": "A"}, {"op": "join", "who": "B", "welcome_any": "g1c"}, {"op": "join", "who": "C", "welcome_any": "g1c"},
-           {"op": "create", "who": "D"}, {"op": "kp", "who": "E", "id": "kE"}, {"op": "kp", "who": "F", "id": "kF"},
+           {"op": "create", "who": "D", "ext_senders": ["X"]}, {"op": "kp", "who": "E", "id": "kE"}, {"op": "kp", "who": "F", "id": "kF"},
            {"op": "commit", "who": "D", "id": "g2c", "add": ["kE", "kF"]}, {"op": "apply", "who": "D"}, {"op": "join", "who": "E", "welcome_any": "g2c"}, {"op": "join", "who": "F", "welcome_any": "g2c"}]
     msgs = []
     for enc in (False, True):
         for (a, tag) in (("A", "1"), ("D", "2")):
             ops.append({"op": "opts", "who": a, "encrypt_controls": enc, "path_required": True})
-            ops.append({"op": "propose", "who": a, "kind": "update", "id": f"p{tag}{int(enc)}"})
             ops.append({"op": "app", "who": a, "id": f"a{tag}{int(enc)}", "data": "01"})
+            ops.append({"op": "propose", "who": a, "kind": "update", "id": f"p{tag}{int(enc)}"})
             ops.append({"op": "commit", "who": a, "id": f"c{tag}{int(enc)}"})
             ops.append({"op": "clear", "who": a})
+            ops.append({"op": "clear_proposals", "who": a})
             msgs += [(f"p{tag}{int(enc)}", tag), (f"a{tag}{int(enc)}", tag), (f"c{tag}{int(enc)}", tag)]
+    # messages of NON-members, which carry no membership tag and are signed without the group
+    # context: a new-member proposal (external add request) and an external sender's proposals,
+    # made for one group and handed to the other, which is in the same epoch and lists the same
+    # external sender
+    for (a, tag, other) in (("A", "1", "G"), ("D", "2", "H")):
+        ops.append({"op": "group_info", "who": a, "id": f"gi{tag}", "ext_commit": True, "tree_ext": True})
+        ops.append({"op": "ext_add", "who": other, "gi": f"gi{tag}", "id": f"xa{tag}"})
+        ops.append({"op": "obs_join", "who": f"O{tag}", "gi": f"gi{tag}", "signer_of": "X"})
+        ops.append({"op": "kp", "who": other, "id": f"kx{tag}"})
+        ops.append({"op": "obs_propose", "who": f"O{tag}", "kind": "add", "kp": f"kx{tag}", "id": f"xs{tag}"})
+        ops.append({"op": "obs_propose", "who": f"O{tag}", "kind": "remove", "index": 1, "id": f"xr{tag}"})
+        msgs += [(f"xa{tag}", tag), (f"xs{tag}", tag), (f"xr{tag}", tag)]
     cross = []
+    # control: the group they were made for accepts them
+    for (rcv, ids) in (("B", ("xa1", "xs1", "xr1")), ("E", ("xa2", "xs2", "xr2"))):
+        for mid in ids:
+            ops.append({"op": "deliver", "to": rcv, "msg": mid})
     for mid, tag in msgs:
         for r in (("E", "F") if tag == "1" else ("B", "C")):
             ops.append({"op": "deliver", "to": r, "msg": mid, "snap_before": True, "observe": r})
@@ -308,6 +325,11 @@ def main(run, args):
                 tie_cases.append({"script": sc["name"], "msg": mid, "hex": d["hex"], "ctx": cr["ctx"], "mkey": cr["mkey"], "pk": pk})
     for (sc, cross), rs in zip(xs, recs[len(items):]):
         byi = {r["i"]: r for r in rs if "i" in r}
+        crossidx = {k for k, _, _ in cross}
+        setup_bad = [r for r in rs if (r.get("ok") is False or r.get("crash")) and r.get("i") not in crossidx]
+        if setup_bad:
+            failing.append({"what": "setup of the cross-group world failed (a message that its own group must accept was refused, or could not be made)", "script": sc["name"], "record": setup_bad[0], "op": sc["ops"][setup_bad[0].get("i", 0)]})
+            continue
         for (k, mid, rcv) in cross:
             r = byi.get(k, {})
             n_cross += 1
